@@ -7,7 +7,13 @@
 (*  - all `&mut self` calls of the registry are possible only while no     *)
 (*    guard is alive (rustc enforces that; mirrored so that every model    *)
 (*    behaviour is executable);                                            *)
-(*  - try_get_multiple_mut / get_multiple_mut (src/state/registry/multi.rs)*)
+(*  - try_get_multiple_mut / get_multiple_mut and the tuple trait's own     *)
+(*    entry points (src/state/registry/multi.rs), on the registry or an    *)
+(*    ancestor;                                                            *)
+(*  - the convenience accessors of State (src/state/mod.rs: iterations,    *)
+(*    evaluations, best_individual, best_objective_value, populations,     *)
+(*    populations_mut, random_mut, log) as forms of acquire / read / write *)
+(*    (tables AccSh .. AccType in Registry.tla);                           *)
 (*  - State::holding (src/state/mod.rs): take T out of the scope that      *)
 (*    holds it, run a body next to the rest of the state, put T back into  *)
 (*    the scope it came from whether or not the body fails.                *)
